@@ -12,7 +12,7 @@ from __future__ import annotations
 import ast
 
 from ..cfg import CFG, facts_at
-from ..core import AnalysisError, FuncNode, call_name, calls_in, last_attr, src
+from ..core import AnalysisError, FuncNode, call_name, calls_in, last_attr, src, unconditionally_evaluated
 from ..lifecycle import SCHED, Lifecycle, describe_trace
 
 EXPLANATION = (
@@ -41,8 +41,15 @@ def run(ctx):
     for s in submits:
         ok = bool(store) and any(cfg.dominates(st, s) for st in store)
         r1.check(ok, f"{m.rel}:{lc.EXEC}:{src(s.ast)[:40]}", "the job is handed to the executor before it is stored in _pending_jobs: an equal call arriving meanwhile is submitted again", m.rel, s.lineno)
-    cp = [cfg.node_of(c) for c in calls_in(ex, shallow=True) if call_name(c) == "self._check_pending_job"]
-    if not cp:
+    cp_calls = [c for c in calls_in(ex, shallow=True) if call_name(c) == "self._check_pending_job"]
+    cp = []
+    for c in cp_calls:
+        node = cfg.node_of(c)
+        if unconditionally_evaluated(node.ast, c):
+            cp.append(node)
+        else:
+            r1.violation(f"{m.rel}:{lc.EXEC}:conditional-duplicate-lookup", f"the pending-duplicate lookup is short-circuited in `{src(node.ast)[:90]}`: on the entries where it is skipped an equal call that is already pending is handed to an executor again", m.rel, c.lineno)
+    if not cp_calls:
         raise AnalysisError("exec handler no longer calls _check_pending_job", lc.EXEC)
     for name in ("self._get_cache", "self._consume_resources"):
         for c in calls_in(ex, shallow=True):
